@@ -315,6 +315,39 @@ def runSeq (ws : List String) : String :=
     | some b => "stuck:" ++ b
     | none => " ".intercalate (q.out.map showEvW)
 
+def hexKey (h ks st : List UInt8) : String := toHex (Prepare.keyFor h ks st)
+
+def parseTriple (h ks st : String) : Option Prepare.Triple :=
+  match parseHex h, parseHex ks, parseHex st with
+  | some h, some ks, some st => some { host := h, ks := ks, text := st }
+  | _, _, _ => none
+
+/-- execIfMissing with the publishing closure, on cache key k -/
+def doLookup (s : St) (k : String) : St × String :=
+  let hit := s.prep.cache.find k
+  match Prepare.step s.prep (.lookup k) with
+  | none => (s, "rejected")
+  | some p' =>
+    let f := match hit with | some f => f | none => s.prep.flights.length
+    ({ s with prep := p' }, s!"{if hit.isSome then "hit" else "miss"} f={f} ev={newEv s.prep p'} len={p'.cache.len}")
+
+/-- evictPreparedID(k, id) -/
+def doUnprep (s : St) (k : String) (idb : List UInt8) : St × String :=
+  match Prepare.step s.prep (.unprepared k idb) with
+  | none => (s, "rejected")
+  | some p' =>
+    if p'.crashed then (s, "crash:nil prepared statement")
+    else ({ s with prep := p' }, s!"ev={newEv s.prep p'} len={p'.cache.len}")
+
+/-- the winner's goroutine finishes flight f -/
+def doComplete (s : St) (f r id : String) : St × String :=
+  match f.toNat?, parseHex id with
+  | some f, some idb =>
+    match Prepare.step s.prep (.complete f (if r == "ok" then some idb else none)) with
+    | none => (s, "rejected")
+    | some p' => ({ s with prep := p' }, s!"done ev={newEv s.prep p'} len={p'.cache.len}")
+  | _, _ => (s, "bad-op")
+
 def step (s : St) (ws : List String) : St × String :=
   match ws with
   | ["reset", "lru", cap] => ({ s with lru := LRU.new (cap.toInt?.getD 0) }, "ok")
@@ -333,21 +366,13 @@ def step (s : St) (ws : List String) : St × String :=
     ({ s with lru := r.1 }, s!"ev={showEv r.2} len={r.1.len}")
   | ["drain"] =>
     ({ s with lru := { s.lru with items := [] } }, "ev=" ++ showEv s.lru.items.reverse)
-  | ["lookup", h, ks, st] =>
-    let k := key (unq h) (unq ks) (unq st)
-    let hit := s.prep.cache.find k
-    match Prepare.step s.prep (.lookup k) with
-    | none => (s, "rejected")
-    | some p' =>
-      let f := match hit with | some f => f | none => s.prep.flights.length
-      ({ s with prep := p' }, s!"{if hit.isSome then "hit" else "miss"} f={f} ev={newEv s.prep p'} len={p'.cache.len}")
-  | ["complete", f, r, id] =>
-    match f.toNat?, parseHex id with
-    | some f, some idb =>
-      match Prepare.step s.prep (.complete f (if r == "ok" then some idb else none)) with
-      | none => (s, "rejected")
-      | some p' => ({ s with prep := p' }, s!"done ev={newEv s.prep p'} len={p'.cache.len}")
-    | _, _ => (s, "bad-op")
+  | ["lookup", h, ks, st] => doLookup s (key (unq h) (unq ks) (unq st))
+  | ["lookupx", h, ks, st] =>
+    match parseHex h, parseHex ks, parseHex st with
+    | some h, some ks, some st => doLookup s (hexKey h ks st)
+    | _, _, _ => (s, "bad-op")
+  | ["complete", f, r, id] => doComplete s f r id
+  | ["completex", f, r, id] => doComplete s f r id
   | ["outcome", f] =>
     match f.toNat? with
     | some f => (s, match Prepare.outcome s.prep f with
@@ -356,14 +381,30 @@ def step (s : St) (ws : List String) : St × String :=
     | none => (s, "bad-op")
   | ["unprep", h, ks, st, id] =>
     match parseHex id with
-    | some idb =>
-      let k := key (unq h) (unq ks) (unq st)
-      match Prepare.step s.prep (.unprepared k idb) with
-      | none => (s, "rejected")
-      | some p' =>
-        if p'.crashed then (s, "crash:nil prepared statement")
-        else ({ s with prep := p' }, s!"ev={newEv s.prep p'} len={p'.cache.len}")
+    | some idb => doUnprep s (key (unq h) (unq ks) (unq st)) idb
     | none => (s, "bad-op")
+  | ["unprepx", h, ks, st, id] =>
+    match parseHex h, parseHex ks, parseHex st, parseHex id with
+    | some h, some ks, some st, some idb => doUnprep s (hexKey h ks st) idb
+    | _, _, _, _ => (s, "bad-op")
+  | ["keyfor", h, ks, st] =>
+    -- the cache key the code computes, byte for byte
+    match parseHex h, parseHex ks, parseHex st with
+    | some h, some ks, some st => (s, hexKey h ks st)
+    | _, _, _ => (s, "bad-op")
+  | ["keypair", h1, k1, s1, h2, k2, s2] =>
+    -- SPECIFICATION: two triples share a cache entry iff they are the same triple. Proved equal to the model's
+    -- answer (`sameKey`) outside the excluded class (C14_keypair_spec); the excluded class — plain concatenations
+    -- equal although the host-id lengths or the keyspace lengths differ — is op `keypairX` (KF-C14-1)
+    match parseTriple h1 k1 s1, parseTriple h2 k2 s2 with
+    | some t1, some t2 =>
+      (s, if Prepare.excluded t1 t2 then "excluded" else if Prepare.sameStmt t1 t2 then "same" else "differ")
+    | _, _ => (s, "bad-op")
+  | ["keypairX", h1, k1, s1, h2, k2, s2] =>
+    -- MODEL of the code that exists: the keys are compared
+    match parseTriple h1 k1 s1, parseTriple h2 k2 s2 with
+    | some t1, some t2 => (s, if Prepare.sameKey t1 t2 then "same" else "differ")
+    | _, _ => (s, "bad-op")
   | ["pdrain"] =>
     let p := s.prep
     ({ s with prep := { p with cache := { p.cache with items := [] } } }, "ev=" ++ showEvN p.cache.items.reverse)
